@@ -905,7 +905,7 @@ class SaverPure(Pure):
         if isinstance(st, ast.While) and isinstance(st.test, ast.Constant) and st.test.value is True and not st.orelse \
                 and len(st.body) == 1 and isinstance(st.body[0], ast.Try) and self.case_msg is not None:
             tr_ = st.body[0]
-            if len(tr_.handlers) != 1 or ast.unparse(tr_.handlers[0].type) != "Empty" or tr_.orelse or tr_.finalbody:
+            if len(tr_.handlers) != 1 or ast.unparse(tr_.handlers[0].type).split(".")[-1] != "Empty" or tr_.orelse or tr_.finalbody:
                 bad(st, "drain loop: expected try / except Empty")
             after = stmts[1:]
             if self.case_msg[0] == "empty":
@@ -993,8 +993,8 @@ def gen_savers(repo):
     for n in ast.walk(init):
         if isinstance(n, ast.Assign) and len(n.targets) == 1 and ast.unparse(n.targets[0]) == "self._silence_data":
             v = n.value
-            ok = isinstance(v, ast.Attribute) and v.attr == "data" and isinstance(v.value, ast.Call) and isinstance(v.value.func, ast.Name) \
-                and v.value.func.id == "make_silence"
+            ok = isinstance(v, ast.Attribute) and v.attr == "data" and isinstance(v.value, ast.Call) \
+                and ast.unparse(v.value.func).split(".")[-1] == "make_silence"
             if ok:
                 call = v.value
                 names = ["silence_duration", "sampling_rate", "sample_width", "channels"]
@@ -1649,6 +1649,9 @@ def gen_times(repo):
     for x in ast.walk(pi):
         if isinstance(x, ast.Call) and ast.unparse(x.func) == "object.__setattr__" and len(x.args) == 3 and isinstance(x.args[1], ast.Constant):
             sets.setdefault(x.args[1].value, []).append(x.args[2])
+        elif isinstance(x, ast.Call) and isinstance(x.func, ast.Name) and len(x.args) == 2 and not x.keywords and isinstance(x.args[0], ast.Constant) \
+                and isinstance(x.args[0].value, str) and x.args[0].value in ("duration", "end", "meta", "start"):
+            sets.setdefault(x.args[0].value, []).append(x.args[1])      # a local helper wrapping object.__setattr__(self, name, value)
     ldefs = {x.targets[0].id: x.value for x in ast.walk(pi) if isinstance(x, ast.Assign) and len(x.targets) == 1 and isinstance(x.targets[0], ast.Name)}
     if len(sets.get("duration", [])) != 1:
         raise TranslationError("__post_init__ must set duration exactly once")
